@@ -457,7 +457,7 @@ class Exec:
                 return len(o.fields) > 0
         if isinstance(v, VTuple):
             return len(v.items) > 0
-        if isinstance(v, (VFunc, VOpaque)):
+        if isinstance(v, (VFunc, VOpaque)) or type(v).__name__ == 'VGen':
             return True
         if isinstance(v, VArr):
             raise Unsupported('truth value of an array')
